@@ -307,7 +307,7 @@ def strat_bin(tier):
     def axes(nd):
         return st.tuples(st.lists(st.integers(1, hi), min_size=nd, max_size=nd), st.lists(st.integers(1, 4), min_size=nd, max_size=nd))
     return st.integers(1, 4).flatmap(axes).flatmap(lambda of: st.fixed_dictionaries({
-        'out': st.just(of[0]), 'factor': st.just(of[1]), 'kind': st.sampled_from(['float', 'float', 'intfloat', 'int64', 'const']),
+        'out': st.just(of[0]), 'factor': st.just(of[1]), 'kind': st.sampled_from(['float', 'float', 'intfloat', 'int64', 'const', 'uint16', 'uint8', 'int32']),
         'scalar_factor': st.booleans(), 'avg_name': st.sampled_from(['avg', 'average', 'mean']),
         'seq': st.sampled_from(['list', 'tuple']), 'seed': U.seeds}))
 
@@ -346,6 +346,11 @@ def check_bin(case, ctx):
     elif kind == 'const':
         x = np.full(shape, 2.75)
         y = np.full(out_shape, -1.5)
+    elif kind in ('uint16', 'uint8', 'int32'):
+        # what Detector.expose returns: narrow integer frames, bright enough that a block sum exceeds the dtype's range
+        hi = {'uint16': 65535, 'uint8': 255, 'int32': 2**31 - 1}[kind]
+        x = r.integers(hi // 2, hi, shape, endpoint=True).astype(kind)
+        y = r.integers(0, 1000, out_shape).astype(np.int64)
     else:
         x = r.integers(-50, 1000, shape).astype(np.float64 if kind == 'intfloat' else np.int64)
         y = r.integers(-50, 1000, out_shape).astype(np.float64 if kind == 'intfloat' else np.int64)
@@ -354,12 +359,12 @@ def check_bin(case, ctx):
         farg = int(factor[0])
         ctx.label('scalar-factor')
     nblock = int(np.prod(factor))
-    exact = kind in ('intfloat', 'int64')
+    exact = kind in ('intfloat', 'int64', 'uint16', 'uint8', 'int32')
     avg = case['avg_name']
     xs = x.copy()
     bs = ctx.call(bindown, xs, farg, 'sum')
     ba = ctx.call(bindown, xs, farg, avg)
-    ref = _ref_bindown_sum(x, factor)
+    ref = _ref_bindown_sum(x.astype(np.int64) if x.dtype.kind in 'iu' else x, factor)     # exact 64-bit reference for integer frames
     U.check_shape(bs, out_shape, 'bindown:sum')
     U.check_shape(ba, out_shape, 'bindown:avg')
     scale = float(np.max(np.abs(x))) * nblock
